@@ -16,6 +16,14 @@ def build_jobs(tier, seed):
     jobs += img.simple_jobs(J, H, PROPS, k, tier, gpt='all')
     jobs.append(J(H['vhdx'], dict(P, cuts=k, sigs='sym'), split_depth=14))
     jobs.append(J(H['vmdk-text'], dict(P)))
+    for mg in (('none', 'qcow2', 'luks') if tier == 'quick' else
+               ('none', 'qcow2', 'luks', 'vhd', 'qed', 'junk', 'vmdk',
+                'vhdx')):
+        jobs.append(J(H['cli'], dict(P, magic=mg, overlays='single',
+                                     nmin=34000 if tier == 'quick' else 512,
+                                     nmax=36000), split_depth=8))
+    jobs.append(J(H['cli'], dict(P, magic='none', overlays='single',
+                                 small_n=True, missing=True, verbose=True)))
     jobs += img.vmdk_jobs(J, H, PROPS, tier,
                           {'hdr', 'desc1', 'desc2', 'footer'}, k=k)
     return jobs
@@ -30,6 +38,11 @@ def describe(tier):
             'one chunk' if tier == 'quick' else 'one symbolic cut'),
         'gpt': 'bounded family: each of the 4 slots fully symbolic in turn '
         '(thorough: every pair) x 3 concrete patterns for the others',
+        'cli.main': 'sys.argv, os.path.exists/isfile and open replaced by a '
+        'symbolic file from the polyglot family of C03 (qcow2 version / '
+        'feature / backing-file variants, LUKS versions, MBR with and '
+        'without a partition); exit status 0 implies unique detection and a '
+        'safe reference verdict; a clean uniquely detected image exits 0',
         'SafetyCheck': 'harness inspector with %d checks, each passing / '
         'raising SafetyViolation / raising RuntimeError / raising KeyError' %
         (2 if tier == 'quick' else 3),
